@@ -225,7 +225,8 @@ class Ctx:
         equiv = {"unique_values": "Proofs/GenEquivUV", "data_preparation": "Proofs/GenEquivDP", "main_loop": "Proofs/GenEquivML",
                  "cluster_label_assignment": "Proofs/GenEquivLA", "solver": "Proofs/GenEquivSV", "cluster_metrics": "Proofs/GenEquivCM",
                  "solver_loop": "Proofs/GenEquivSL", "likelihood": "Proofs/GenEquivLK", "main_loop_results": "Proofs/GenEquivMR",
-                 "front_single": "Proofs/GenEquivFE", "front_joint": "Proofs/GenEquivFE"}
+                 "front_single": "Proofs/GenEquivFE", "front_joint": "Proofs/GenEquivFE",
+                 "cluster_maintenance": "Proofs/GenEquivCR", "graphical_lasso": "Proofs/GenEquivGL"}
         self.coq_deps = list(coq_deps) + [equiv[g] for g in self.gen]
         t_pl = time.time()
         try:
